@@ -16,10 +16,11 @@ EXPLANATION = (
     "writes is what from_dict passes), and for every sampler a domain method can attach, the name its __str__ returns "
     "resolves - through the `_<name>` lookup from_dict performs - to exactly that sampler class, whose attributes equal its "
     "constructor parameters; S4 the scaling factory's arms use the same predicates the sub-space check compares, and those "
-    "predicates name sampler classes that exist. NOT decided: numeric membership after exp(log(.)), ±0.5 integer rounding, "
+    "predicates name sampler classes that exist; S5 sibling agreement on integer conversion - every int() on the decode/cast paths "
+    "(domain value table, finite-range and integer encoders) is applied to a round-half-even result, never truncates. NOT decided: numeric membership after exp(log(.)), ±0.5 integer rounding, "
     "1e-7 round trip, nearest-neighbour ties.")
 
-FLOOR = {"S1": 6, "S2": 5, "S3": 8, "S4": 3}
+FLOOR = {"S1": 6, "S2": 5, "S3": 8, "S4": 3, "S5": 6}
 
 
 # ----------------------------------------------------------------------------- S1
@@ -395,7 +396,47 @@ def s4(ctx, rep):
     rep.put(ok, "S4", "agreement", "_assert_sub_config_space compares the predicates get_scaling dispatches on", a, None, "")
 
 
+ROUNDERS = ("round", "rint", "around", "round_")
+
+
+def _rounded(f, e, depth=0):
+    """Is e (the argument of int()) the result of a round-half-even primitive (possibly clipped / cast)?"""
+    if depth > 4:
+        return False
+    if isinstance(e, ast.Call):
+        n = fn_name(e)
+        if n in ROUNDERS:
+            return True
+        if n in ("clip", "float", "minimum", "maximum", "min", "max", "asarray", "array") and e.args:
+            return _rounded(f, e.args[0], depth + 1)
+        return False
+    if isinstance(e, ast.Name):
+        ds = [d for d in local_defs(f, e.id) if not isinstance(d, tuple)]
+        return bool(ds) and all(_rounded(f, d, depth + 1) for d in ds)
+    return False
+
+
+def s5(ctx, rep):
+    """Sibling agreement on integer conversion: the domain's own value table and the encoder's decoder must round the
+    same way (round-half-even primitives), never truncate."""
+    P = ctx.P
+    sites = [P.method("FiniteRange", "_map_from_int"), P.method("HyperparameterRangeFiniteRange", "_map_from_int"),
+             P.method("FiniteRange", "_map_to_int"), P.method("HyperparameterRangeFiniteRange", "_map_to_int"),
+             P.method("HyperparameterRangeInteger", "_round_to_int"), P.method("syne_tune.config_space.Integer", "cast")]
+    for f in sites:
+        ints = [x for x in walk_shallow(f.node) if isinstance(x, ast.Call) and isinstance(x.func, ast.Name) and x.func.id == "int" and x.args]
+        if not ints:
+            raise AnchorError(f"{f.short}: no int() conversion found any more")
+        bad = [x for x in ints if not _rounded(f, x.args[0])]
+        rep.put(not bad, "S5", "sibling", f"{f.short}: int() only of a rounded value", f, bad[0] if bad else None,
+                f"{len(ints)} conversion(s) through {ROUNDERS[:2]}",
+                f"`{U(bad[0]) if bad else ''}` converts by truncation, while the sibling implementations round half-to-even: the decoder "
+                "and the domain's own list of values disagree (e.g. for negative or x.5 grid points), so decoded values are not "
+                "members and the round trip of a member fails")
+
+
 def run(ctx, rep, tier="quick"):
+    s5(ctx, rep)
     s1(ctx, rep)
     s2(ctx, rep)
     s3(ctx, rep)
